@@ -28,6 +28,7 @@ from tensordict.utils import (
     _shape,
     _zip_strict,
     DeviceType,
+    is_non_tensor,
     lazy_legacy,
     set_lazy_legacy,
 )
@@ -326,6 +327,13 @@ def _cat(
         out = {}
         for key in keys:
             items = [td._get_str(key, NO_DEFAULT) for td in list_of_tensordicts]
+            if is_non_tensor(items[0]):
+                # non-tensor entries: torch.cat would keep the payload of the first item
+                # at every position (NonTensorData) or lose the data (NonTensorStack)
+                from tensordict.tensorclass import NonTensorData
+
+                out[key] = NonTensorData._cat_non_tensor(items, dim)
+                continue
             if not is_compiling():
                 with _ErrorInteceptor(
                     key, "Attempted to concatenate tensors on different devices at key"
